@@ -63,6 +63,15 @@ func boundsOf(kv ...any) func(map[string]machine.Value) map[string]*big.Int {
 				m[acc] = nil
 			case string:
 				m[acc] = amountOf(vars[b])
+			case []string:
+				// the largest of several allowances used for the same account
+				var mx *big.Int
+				for _, n := range b {
+					if v := amountOf(vars[n]); mx == nil || v.Cmp(mx) > 0 {
+						mx = v
+					}
+				}
+				m[acc] = mx
 			}
 		}
 		return m
@@ -551,4 +560,25 @@ send [EUR/2 7] (
   source = @a
   destination = @b
 )`, vars: mvars("m", "monetary")})
+}
+
+// An account already below its allowance is drained by a send-all (nothing to take), then used
+// again with another allowance: the second use may only take what the real balance leaves.
+func Harness_VM_35_send_all_overdraft_then_overdraft() {
+	checkCase(vmCase{script: `vars {
+  monetary $n
+  monetary $od
+  monetary $od2
+}
+send [USD/2 *] (
+  source = @a allowing overdraft up to $od
+  destination = @b
+)
+send $n (
+  source = {
+    @a allowing overdraft up to $od2
+    @world
+  }
+  destination = @c
+)`, vars: mvars("n", "monetary", "od", "monetary", "od2", "monetary"), asset: cA, bounds: boundsOf("a", []string{"od", "od2"})})
 }
